@@ -710,6 +710,34 @@ fn run_case(line: &str) -> String {
                 v.iter().map(|b| format!("{:x}", b)).collect::<Vec<_>>().join(" ")
             })
         },
+        // sq <fmt> <int1> <frac1> <e1> <int2> <frac2> <e2> ... : the inputs parsed in order on THIS thread, then each
+        // again on a fresh thread (no call history); prints both result lists
+        "sq" => {
+            let mut items: Vec<(Vec<u8>, Vec<u8>, i32)> = vec![];
+            let mut k = 2;
+            while k + 2 < t.len() {
+                items.push((decode_bytes(t[k]), decode_bytes(t[k + 1]), parse_i32(t[k + 2])));
+                k += 3;
+            }
+            with_float!(t[1], F, {
+                let seq: Vec<String> = items
+                    .iter()
+                    .map(|(i, f, e)| format!("{:x}", minimal_lexical::parse_float::<F, _, _>(i.iter(), f.iter(), *e).to_bits()))
+                    .collect();
+                let fresh: Vec<String> = items
+                    .iter()
+                    .map(|(i, f, e)| {
+                        let (i, f, e) = (i.clone(), f.clone(), *e);
+                        std::thread::spawn(move || {
+                            format!("{:x}", minimal_lexical::parse_float::<F, _, _>(i.iter(), f.iter(), e).to_bits())
+                        })
+                        .join()
+                        .unwrap_or_else(|_| "panic".to_string())
+                    })
+                    .collect();
+                format!("seq {} fresh {}", seq.join(","), fresh.join(","))
+            })
+        },
         // pn <int> <frac> <exp>
         "pn" => {
             let int = decode_bytes(t[1]);
